@@ -19,7 +19,7 @@ CLAIMS = {
     'C02': ('proof',
             'The bilinear form of each of the 180 output slots of the commutator / anticommutator kernels and the 10 SUTrace forms are '
             'extracted and compared coefficient by coefficient with i[A,B], {A,B}, Tr(AB) expanded over the basis extracted under C01; '
-            'each slot written exactly once (incl. the identity slot).',
+            'each slot written exactly once (incl. the identity slot); the scalar product of two scaled-vector expressions (over one vector object and over two) is s1 s2 Tr(AB).',
             'static analysis: abstract interpretation into bilinear coefficient tables; comparison with the matrix definition'),
     'C03': ('proof',
             'Slot tables of EvolutionProxy, the sin/cos table of PrepareEvolve and the FastEvolutionProxy table fed with it are extracted '
@@ -38,10 +38,10 @@ CLAIMS = {
             'static analysis: abstract interpretation of the solver with uninterpreted user hooks and a summarised ODE driver; comparison with the documented right-hand side'),
     'C05': ('other',
             'The seven query functions are interpreted on a solver with symbolic state, symbolic ordered nodes and uninterpreted H0, with the query placed in every order relation to the nodes; the value is compared with '
-            'Tr(rho Evolve(op,H0(.),t-t_ini)) built from the C02/C03 tables (H0 argument, weights, bracketing nodes), and both-sided range rejection is required; a query through a scratch buffer (explicit or per-thread) that another solver with a different H0 used before, at the same x or another, must give what a fresh buffer gives; the clock, move and averaging-table rules of C10/C11 are repeated. Numerical value of the trace is declined.',
+            'Tr(rho Evolve(op,H0(.),t-t_ini)) built from the C02/C03 tables (H0 argument, weights, bracketing nodes), and both-sided range rejection is required; a query through a scratch buffer (explicit or per-thread) that another solver with a different H0 - or of another dimension - used before, at the same x or another, must give what a fresh buffer gives, a repeated averaged query writes every flag again, the range clause also holds on a grid built by Set_xrange(a,b,lin) for x less than a spacing outside; the clock, move and averaging-table rules of C10/C11 are repeated. Numerical value of the trace is declined.',
             'static analysis: abstract interpretation with an explicit order oracle for the bracketing search; one-sided-comparison (range guard) rule'),
     'C10': ('other',
-            'Structural necessary conditions: both Evolve branches advance the clock by dt; the no-numerics branch touches neither state nor driver; post-step re-aliasing uses the ini layout; one integration per call; ini resets clock/views/cache keys (also when the object had another shape before); '
+            'Structural necessary conditions: both Evolve branches advance the clock by dt; the no-numerics branch touches neither state nor driver; post-step re-aliasing uses the ini layout; one integration per call, one PreDerive(new t) per call also for zero-length segments without numerics; ini resets clock/views/cache keys (also when the object had another shape, more scalars, or was moved from before); '
             'each setter recomputes the OR of all five switches (all 64 cases, from a consistent and from an overridden flag); move operations transfer every field of the record declaration, re-point sys.params, leave the back-pointer of the source off the new object and disable the source (also from a source whose numerics are suspended); the right-hand side with terms switched off contributes nothing whatever the stepper buffers hold (C04 D.rhs on one configuration); on a failing driver the clock is the time reached. Equality of split vs single evolution within tolerance is numerical and declined.',
             'static analysis: abstract interpretation of the solver state handling; field-completeness rule over the record declaration'),
     'C17': ('other',
@@ -53,7 +53,7 @@ CLAIMS = {
             'the const query methods of the solver perform no write reachable from this and hand no storage of the object to a callee through a pointer to non-const; calls with process-global side effects only inside once-only static const initialisers; every thread-local owner of heap blocks has a destructor that releases every member its class allocates (1 known finding: the block cache).',
             'static analysis: storage-class and effect audit over the type-resolved AST (who-may-write / who-may-call rules)'),
     'C19': ('other',
-            'Structural necessary conditions; linearizability under all interleavings is declined. On both compilations of Cache.h (the atomic one via a driver TU): record typestate (no access after publish), conservation of records after every operation, '
+            'Structural necessary conditions; linearizability under all interleavings is declined. On both compilations of Cache.h (the atomic one via a driver TU): record typestate (no access after publish), conservation of records after every operation (a pool whose representation is not the two intrusive lists is judged by behaviour alone; cache objects start zero-initialised, as static and thread-local objects do), a version counter that never goes back, '
             'exhaustive single-threaded sequences up to length 7 (N=4) / from fills 0,1,31,32 (N=32) against a bounded-LIFO model, and sequences of up to 3 (quick) / 4 (thorough) operations of other threads interposed before the first or second exchange of an operation at every fill level 0..N - one of them possibly suspended before its own second exchange and completing afterwards - judged against what a sequential pool allows (nothing handed out twice, capacity respected, records partitioned between the two lists, draining returns what was stored).',
             'static analysis: local typestate and conservation by abstract interpretation with summarised atomics; enumerated interposition of other threads\' operations at the exchange points'),
     'C06': ('proof',
@@ -81,7 +81,7 @@ CLAIMS = {
             'static analysis: abstract interpretation with symbolic component data over enumerated storage/alias states; single-assignment and trait/kernel agreement rules'),
     'C12': ('other',
             'Structural necessary conditions on GetEigenSystem: on every path (d=2..6, both orderings, also after a decomposition of the same vector with the other ordering flag) the values returned are the outputs of gsl_eigen_hermv for exactly the C01 matrix of the vector (the objects the solver filled or copies of them, eigenvalue k with its own eigenvector column), '
-            'ascending when ordering is requested (by the trusted sort, or - if the path orders them itself - on every concrete order of the eigenvalues for d<=4 and a selection beyond), the matrix handed to the solver is the generic linear conversion for every input (an entry that takes another form on part of the input space is reported), and the body contains no division/root/argument function of input-dependent quantities. The solver\'s accuracy is trusted, so this is not a proof of the numerical statement.',
+            'ascending when ordering is requested (by the trusted sort, or - if the path orders them itself - on every concrete order of the eigenvalues for d<=4 and a selection beyond, ties included); five input classes (dense, diagonal, real-only, imaginary-only, imaginary parts in the last row and column only), the matrix handed to the solver is the generic linear conversion for every input (an entry that takes another form on part of the input space is reported), and the body contains no division/root/argument function of input-dependent quantities. The solver\'s accuracy is trusted, so this is not a proof of the numerical statement.',
             'static analysis: path enumeration by abstract interpretation with callee summaries; syntactic rule for writes/divisions outside the trusted solver'),
     'C15': ('other',
             'Token accounting on every exit (incl. library exceptions) of every explored lifecycle path; GSL allocate/free pairing on every path to every exit of every function that allocates, with a may-throw call graph; '
